@@ -503,3 +503,6 @@ def run(ck):
     from . import C10, C07
     C10.check_localown(ck, prog)
     C07.check_progress(ck, prog)
+    # a reset that leaves a repeat distance or probability behind lets a crafted (valid) file read outside the window
+    from . import C01
+    C01.check_reset(ck, prog)
